@@ -7,6 +7,8 @@ NOTE = ("Trusted: Coq 8.16.1 kernel and vm_compute (no native_compute); no axiom
 P = {
  "C01": ("Admission rule proved for all of Z (registry, debug mode, levels) about the reference function, which is proved equal to the translation of Level.Enabled regenerated from the source; every row of the entry-point table regenerated from the source is proved to apply that rule (finite table, by computation); history lemmas for the debug side effect, SetLevel and registry stability. Correspondence: exhaustive grid logger level x severity x debug x every entry point (Entry methods by reflection) under registry samples + random histories, model evaluated by vm_compute, direct oracle = the statement's rule.",
          "Rocq/Coq proof + source-to-Gallina translation of Level.Enabled and the entry-point table + model/implementation correspondence (vm_compute)", "DESIGN.md §4 C01"),
+ "C03": ("Refinement proved by induction over ANY sequence of the eleven writer operations: the code-level state (lazily created dualWriter, logwr cells, leveled map) denotes exactly the documented configuration (set replaces, add appends, remove deletes the first registration, reset restores defaults); routing of the code equals documented routing on that denotation; delivery writes once to each selected member in order, nothing to others, and tells a LevelSettable member immediately before its Write. Correspondence: random (and in thorough tier exhaustive length<=3) op sequences as methods and New options over a 6-writer pool, probes at 10 severities incl. registered ones and the stdout/stderr fall-back observed through redirected file descriptors; direct oracle = denotation re-implemented in Go.",
+         "Rocq/Coq refinement proof (induction over op sequences) + model/implementation correspondence (vm_compute)", "DESIGN.md §4 C03"),
  "C11": ("Three-state machine for every list of mode calls, mutual-exclusion invariant over every reachable logger tree, getter/shape agreement, locality - proved in Coq about Model/Mode.v and Model/Tree.v; correspondence: exhaustive short call sequences + random histories on the real loggers, evaluated by vm_compute; direct oracle = the statement's machine.",
          "Rocq/Coq proof (induction over call lists and histories) + model/implementation correspondence (vm_compute)", "DESIGN.md §4 C11"),
 }
